@@ -166,7 +166,8 @@ def hist3(ntags: int, pkind: int, tkind: int, o0: int, p0: int, t0: int, o1: int
     _history(pick(pkind, 3), pick(tkind, 3), [_op(o0, p0, t0), _op(o1, p1, t1), _op(o2, p2, t2)])
 
 
-def hist4(pkind: int, tkind: int, o0: int, p0: int, t0: int, o1: int, p1: int, t1: int, o2: int, p2: int, t2: int, o3: int, p3: int, t3: int):
+def hist4(ntags: int, pkind: int, tkind: int, o0: int, p0: int, t0: int, o1: int, p1: int, t1: int, o2: int, p2: int, t2: int, o3: int, p3: int, t3: int):
+    NTAGS[0] = ntags
     _history(pick(pkind, 3), pick(tkind, 3), [_op(o0, p0, t0), _op(o1, p1, t1), _op(o2, p2, t2), _op(o3, p3, t3)])
 
 
@@ -202,16 +203,19 @@ def shards(tier):
                 out.append(dict(name=f'hist3/pk={pk},o1={o1}', harness='hist3',
                                 fixed=dict(ntags=2, pkind=pk, tkind=pk, o0=SAVE, p0=0, o1=o1), budget_s=400))
             else:
-                for o2 in range(len(OPS)):
-                    out.append(dict(name=f'hist4/pk={pk},o1={o1},o2={o2}', harness='hist4',
-                                    fixed=dict(pkind=pk, tkind=pk, o0=SAVE, p0=0, o1=o1, o2=o2), budget_s=3000))
+                out.append(dict(name=f'hist3/pk={pk},o1={o1}', harness='hist3',
+                                fixed=dict(ntags=3, pkind=pk, tkind=pk, o0=SAVE, p0=0, o1=o1), budget_s=1500))
+                if pk == 0:
+                    for o2 in range(len(OPS)):
+                        out.append(dict(name=f'hist4/pk={pk},o1={o1},o2={o2}', harness='hist4',
+                                        fixed=dict(ntags=2, pkind=pk, tkind=pk, o0=SAVE, p0=0, o1=o1, o2=o2), budget_s=3000))
     return out
 
 
 BOUNDS = {
     'quick': dict(history='save(p0, any tag) followed by 2 operations over ' + str(OPS) + ' x 2 processes x 2 tags (None, one value)', ids='ints (1, 12) / UUIDs / strings (p, pq); tags None + two of the same kind',
                   process='context process advancing CREATED -> WAITING -> WAITING -> FINISHED between operations', filename='pickle_filename injective for symbolic separator-free strings of length 1..3'),
-    'thorough': dict(history='save followed by 3 operations', ids='as quick', process='as quick', filename='as quick'),
+    'thorough': dict(history='save followed by 2 operations with 3 tags (all id kinds) or by 3 operations with 2 tags (integer ids)', ids='as quick', process='as quick', filename='as quick'),
 }
 OUTSIDE = ['histories longer than the bound', 'ids/tags containing the separator "." or a path separator', 'mixed id kinds in one history', 'concurrent access, file system faults']
 RULE = 'paths over (id kind, operations with pid/tag indices); non-trivial when both persisters and the dictionary model were compared over the whole history'
